@@ -235,6 +235,20 @@ def r1(ctx):
             sl = b.slice_op(t["args"][0])
             if not sl.has_call(r"encoding::Encoding::decode$"):
                 yield VIOL("C10-R1", "from_request_parts/iterates-merged-map", "the map iterated in from_request_parts is not the freshly parsed body map", where=b.span_of_block(bi))
+    # a "message-only" iteration is only that while it runs to the end or to an error: a `break` out of it makes the
+    # *outcome* depend on which entry the hash order yields first
+    for b, bi, t in sites:
+        base = re.sub(r"::\{closure#\d+\}$", "", b.path)
+        if ITER_TABLE.get(base, ("",))[0] != "message-only":
+            continue
+        oks_ = {ob for ob, _, _ in result_aggs(b, "Ok")}
+        for nb_, nt_ in b.calls(r"Iterator::next$"):
+            if "hash_map::Keys<" not in nt_.get("resolved_full", "") and "hash_map::Iter<" not in nt_.get("resolved_full", ""):
+                continue
+            st_ = b.term(nt_["target"]) if nt_.get("target") is not None else None
+            some_ = [bb for v, bb in st_["targets"] if v == 1] if st_ and st_["k"] == "switch" else []
+            if some_ and (oks_ & b._reachable_from(some_[0], avoid={nb_})):
+                yield VIOL("C10-R1", "map-iteration-left-early/" + b.path, "the hash-map iteration in %s can be left from inside an iteration without an error (`break`): which entries are examined, and with them the outcome, depends on the per-process hash order" % base, where=b.span_of_block(nb_))
     if len(sites) < 4:
         yield MISSING("C10-R1", "map-iteration/floor", "only %d hash-map iteration sites found (4 confirmed by hand)" % len(sites))
     else:
